@@ -19,6 +19,10 @@ Theorems (all unbounded: every body, every chunking of the reads, every segmenta
                                      only (the first j) body lines;
 * `no_body_line_becomes_command`   — in neither situation is any line handed to `state_COMMAND`,
                                      nor `connectionLost`/`lineLengthExceeded` called;
+* `body_transparent_after_any_history`, `afterSession_fresh`, `body_transparent_in_session` — the accepted
+                                     `DATA` command (`doData`) puts the server into the fresh DATA state whatever
+                                     state earlier commands/messages left (flags, mode), so the headline holds
+                                     for a message sent after any in-scope earlier messages of the same session;
 * `client_wire` (Client.lean)      — what the client writes is the dot-stuffed image, for every chunking;
 * `feed_eq` (Server.lean)          — segmentation invariance of the receiver for every stream that
                                      hits no length limit;
@@ -246,6 +250,73 @@ example :
 
 /-! ### the client before the repair falsifies the property -/
 
+
+/-! ## the message as part of a session (added by the mutation audit: state left over from earlier messages) -/
+/-- `do_DATA` forgets the header/body flags and the mode of whatever came before: with nothing buffered (the
+    client sends nothing between `DATA` and the `354`) the server is the fresh DATA-mode server. -/
+theorem doData_fresh (s : Srv) (hb : s.buffer = []) : doData s = initData := by
+  obtain ⟨buf, mode, ih, ib⟩ := s
+  simp only at hb
+  subst hb
+  rfl
+
+theorem body_transparent_after_any_history (maxLen : Nat) (s0 : Srv) (hb : s0.buffer = []) (ls cs segs : List Bytes)
+    (hl : ∀ l ∈ ls, LineOK l) (hlen : ∀ l ∈ ls, (stuff l).length ≤ maxLen) (hmax : 1 ≤ maxLen)
+    (hne : ∀ c ∈ cs, c ≠ []) (hcs : cs.flatten = joinLF ls) (hsegs : segs.flatten = sendFile cs) :
+    (feed maxLen (doData s0) segs).2 = (hdr ls).map Ev.line ++ [Ev.eom] ∧
+    (feed maxLen (doData s0) segs).1.mode = .command ∧ (feed maxLen (doData s0) segs).1.buffer = [] := by
+  rw [doData_fresh s0 hb]
+  exact body_transparent maxLen ls cs segs hl hlen hmax hne hcs hsegs
+
+
+/-- an earlier message of the session that is itself within the property's preconditions -/
+def PrevOK (prevMax : Nat) (ls : List Bytes) : Prop :=
+  (∀ l ∈ ls, LineOK l) ∧ (∀ l ∈ ls, (stuff l).length ≤ prevMax)
+
+instance (m : Nat) (ls : List Bytes) : Decidable (PrevOK m ls) := by unfold PrevOK; infer_instance
+
+/-- after any number of earlier in-scope messages (each read in one chunk, delivered in one piece) the accepted
+    `DATA` command leaves the server exactly in the fresh DATA state: nothing of the earlier messages (header/body
+    flags, mode, buffered bytes) leaks into the next one -/
+theorem afterSession_fresh (prevMax : Nat) (hmax : 1 ≤ prevMax) (prevs : List (List Bytes)) :
+    ∀ s : Srv, s.buffer = [] → (∀ ls ∈ prevs, PrevOK prevMax ls) →
+      afterSession prevMax s (prevs.map joinLF) = initData := by
+  induction prevs with
+  | nil => intro s hb _; exact doData_fresh s hb
+  | cons ls rest ih =>
+    intro s hb hok
+    have h1 : PrevOK prevMax ls := hok ls (by simp)
+    simp only [List.map_cons, afterSession]
+    apply ih
+    · rw [doData_fresh s hb]
+      have hne : ∀ c ∈ (if joinLF ls = [] then ([] : List Bytes) else [joinLF ls]), c ≠ [] := by
+        intro c hc; by_cases e : joinLF ls = [] <;> simp [e] at hc; subst hc; exact e
+      have hcs : (if joinLF ls = [] then ([] : List Bytes) else [joinLF ls]).flatten = joinLF ls := by
+        by_cases e : joinLF ls = [] <;> simp [e]
+      exact (body_transparent prevMax ls _ [sendFile _] h1.1 h1.2 hmax hne hcs (by simp)).2.2
+    · intro l hl; exact hok l (by simp [hl])
+
+/-- **C40 for a whole session.** The message under test is transferred transparently whatever in-scope messages
+    the same connection carried before it. -/
+theorem body_transparent_in_session (maxLen prevMax : Nat) (prevs : List (List Bytes)) (ls cs segs : List Bytes)
+    (hpm : 1 ≤ prevMax) (hprev : ∀ p ∈ prevs, PrevOK prevMax p)
+    (hl : ∀ l ∈ ls, LineOK l) (hlen : ∀ l ∈ ls, (stuff l).length ≤ maxLen) (hmax : 1 ≤ maxLen)
+    (hne : ∀ c ∈ cs, c ≠ []) (hcs : cs.flatten = joinLF ls) (hsegs : segs.flatten = sendFile cs) :
+    let s := afterSession prevMax {} (prevs.map joinLF)
+    (feed maxLen s segs).2 = (hdr ls).map Ev.line ++ [Ev.eom] ∧
+    (feed maxLen s segs).1.mode = .command ∧ (feed maxLen s segs).1.buffer = [] := by
+  intro s
+  have : s = initData := afterSession_fresh prevMax hpm prevs {} rfl hprev
+  rw [this]
+  exact body_transparent maxLen ls cs segs hl hlen hmax hne hcs hsegs
+
+/-- non-vacuity: a header-only message, a headerless one and an empty one first; then a dot-first body -/
+example :
+    let prevs : List (List Bytes) := [[[83, 58, 120], []], [[46], [120]], []]
+    let s := afterSession 16384 {} (prevs.map joinLF)
+    (∀ p ∈ prevs, PrevOK 16384 p) ∧ s = initData ∧
+    (feed 6 s [sendFile [[46, 10, 82, 83, 69, 84, 10]]]).2 = [Ev.line [], Ev.line [46], Ev.line [82, 83, 69, 84], Ev.eom] := by
+  decide
 /-- A dot line at the very start of the message (`".\nRSET\n"`, one read): the unrepaired client does not
     double the dot, the server ends DATA there and runs the body line `RSET` (and the real terminator)
     as commands. Replayed on the implementation by `harness/corpus/C40/dot-line-at-start-runs-body-as-commands.json`. -/
